@@ -15,7 +15,8 @@ FMTS = '{"class", "pydantic", "function", "argparse"}'
 
 def check(run, replay=None):
     run.rule = ("case = (format, docstring style, emit_default_doc, [type_annotations, kw-only]) x signature-legal interface of "
-                "0..2 typed parameters (14 type shapes x compatible defaults x 2 description kinds) + optional return; "
+                "0..2 typed parameters (14 type shapes x compatible defaults x 2 description kinds) + optional return entry (with a literal / "
+                "code-quoted / None default when there are <= 1 parameters); "
                 "distinct = distinct (cfg, interface); non-trivial = at least one parameter")
     run.assumptions += ["untyped entries and entries without a description are outside the modelled domain",
                         "with emit_default_doc=True the trailing 'Defaults to ...' sentence of a description is not compared"]
